@@ -1,5 +1,5 @@
 (* C09 / C10 - proofs about the tracer model (ModelTracer.v). *)
-From BS Require Import Model.Base.
+From BS Require Import Model.Base Gen.Tracer.
 From W Require Import ModelTracer.
 From Coq Require Import Lia.
 Open Scope N_scope.
@@ -105,6 +105,7 @@ Definition resumes (r : preq) : option N :=
   match r with PCont x _ | PStep x _ | PSyscall x => Some x | _ => None end.
 
 Section LAWS.
+Variable dq : bool.                 (* the single_step dequeue switch: everything here holds for both *)
 Variable W : Type.
 Variable w_wait : W -> option N -> res (wstatus * W).
 Variable w_req : W -> preq -> bool * W.
@@ -123,14 +124,14 @@ Hypothesis req_law : forall w r ok w', w_req w r = (ok, w') ->
 (* PTRACE_INTERRUPT fails (ESRCH) only for a thread that is not running any more *)
 Hypothesis intr_law : forall w x w', w_req w (PInterrupt x) = (false, w') -> ~ running w' x.
 
-Notation ans := (ans W w_wait w_req w_pc).
-Notation gsi := (gsi W w_wait w_req w_pc).
-Notation gsi_round := (gsi_round W w_wait w_req w_pc).
-Notation gsi_while := (gsi_while W w_wait w_req w_pc).
-Notation sstep := (sstep W w_wait w_req w_pc).
-Notation sstep_loop := (sstep_loop W w_wait w_req w_pc).
-Notation sstep_drain := (sstep_drain W w_wait w_req w_pc).
-Notation resume := (resume W w_wait w_req w_pc).
+Notation ans := (ans dq W w_wait w_req w_pc).
+Notation gsi := (gsi dq W w_wait w_req w_pc).
+Notation gsi_round := (gsi_round dq W w_wait w_req w_pc).
+Notation gsi_while := (gsi_while dq W w_wait w_req w_pc).
+Notation sstep := (sstep dq W w_wait w_req w_pc).
+Notation sstep_loop := (sstep_loop dq W w_wait w_req w_pc).
+Notation sstep_drain := (sstep_drain dq W w_wait w_req w_pc).
+Notation resume := (resume dq W w_wait w_req w_pc).
 Notation cont_list := (cont_list W w_req).
 Notation cont_stopped_ex := (cont_stopped_ex W w_req).
 
@@ -559,6 +560,7 @@ Proof.
      | Some SRStart => Panic 4
      | Some (SRSignal _ sg) =>
          if quiet sg then
+           let t2 := if dq then with_queue t2 (remove_last_pair (t_queue t2) (pid, sg)) else t2 in
            match tget (t_threads t2) pid with None => Panic 1 | Some _ =>
            let '(ok, w3) := w_req w2 (PStep pid sg) in
            if negb ok then Err 2 else sstep_loop f bps t2 w3 pid pc0 end
@@ -572,7 +574,13 @@ Proof.
     assert (N2 : ~ running w2 pid) by exact (good_nr _ _ _ _ _ G2 Np).
     destruct stop as [[c| |p a|p a|p sg|p]|]; try discriminate.
     - destruct (quiet sg).
-      + destruct (tget (t_threads t2) pid); [|discriminate].
+      + cbv zeta in Hf.
+        set (t2' := if dq then with_queue t2 (remove_last_pair (t_queue t2) (pid, sg)) else t2) in Hf.
+        assert (G2' : good t w t2' w2 /\ t_guard t2' = t_guard t).
+        { unfold t2'. destruct dq; [|auto]. split; [|exact Gd2].
+          eapply good_trans; [exact G02|]. apply good_same; [reflexivity | exact (fun K => K)]. }
+        destruct G2' as (G2' & Gd2').
+        destruct (tget (t_threads t2') pid); [|discriminate].
         destruct (w_req w2 (PStep pid sg)) as [ok w3] eqn:Er.
         destruct (negb ok); [discriminate|]. eapply AGAIN; eauto.
       + inv Hf. auto.
@@ -774,30 +782,52 @@ Definition run_summary (r : res (dbg * kworld * list (option stop_reason))) :=
   | Ok (d, (k, _), srs) => Some (srs, k_sent k, k_deliv k, t_queue (d_tr d), k_exec k)
   | _ => None end.
 
-(* --- C10: a quiet signal that arrives inside single_step is delivered twice ------------- *)
+(* --- C10, code BEFORE the repair (dequeue = false): a quiet signal that arrives inside
+   single_step is delivered twice ------------------------------------------------------- *)
 (* one thread (tid 1, pc 100) stopped; SIGALRM is sent; `stepi`; `continue` (runs to exit) *)
-Definition w_quiet_in_step :=
-  k_api_run 50 [] (mkD (tinit [(1, 100)]) 1 100) (kinit [(1, 100)] [] [], [CSend 1 SIGALRM]) [OStepi; OCont].
+Definition w_quiet_in_step_old :=
+  k_api_run_gen false 50 [] (mkD (tinit [(1, 100)]) 1 100) (kinit [(1, 100)] [] [], [CSend 1 SIGALRM]) [OStepi; OCont].
 
-Theorem C10_quiet_in_step_refuted :
+Theorem C10_quiet_in_step_refuted_old :
   exists sch ops d k srs,
-    k_api_run 50 [] (mkD (tinit [(1, 100)]) 1 100) (kinit [(1, 100)] [] [], sch) ops = Ok (d, (k, []), srs)
+    k_api_run_gen false 50 [] (mkD (tinit [(1, 100)]) 1 100) (kinit [(1, 100)] [] [], sch) ops = Ok (d, (k, []), srs)
     /\ k_sent k = [(1, SIGALRM)] /\ k_deliv k = [(1, SIGALRM); (1, SIGALRM)]
     /\ k_threads k = [] /\ spec_delivery (k_sent k) (k_deliv k) = false.
 Proof.
   exists [CSend 1 SIGALRM], [OStepi; OCont].
-  destruct w_quiet_in_step as [[[d [k sch]] srs]| | |] eqn:E; try (vm_compute in E; discriminate).
+  destruct w_quiet_in_step_old as [[[d [k sch]] srs]| | |] eqn:E; try (vm_compute in E; discriminate).
   exists d, k, srs. vm_compute in E. inv E. vm_compute. repeat split; reflexivity.
 Qed.
 
 (* two SIGALRMs inside two steps, then continue: 3 deliveries for 2 signals (one queue entry is
    dropped because its thread is also in the exclude set, tracee.rs:242) and a spurious stop
    SignalStop(1, SIGALRM) reported for a quiet signal *)
-Theorem C10_quiet_burst_refuted :
-  run_summary (k_api_run 50 [] (mkD (tinit [(1, 100)]) 1 100)
+Theorem C10_quiet_burst_refuted_old :
+  run_summary (k_api_run_gen false 50 [] (mkD (tinit [(1, 100)]) 1 100)
      (kinit [(1, 100)] [] [], [CSend 1 SIGALRM; CRun 1; CSend 1 SIGALRM]) [OStepi; OStepi; OCont; OCont])
   = Some ([None; None; Some (SRSignal 1 SIGALRM); Some (SRExit 0)],
           [(1, SIGALRM); (1, SIGALRM)], [(1, SIGALRM); (1, SIGALRM); (1, SIGALRM)], [], [(1, 100); (1, 101)]).
+Proof. vm_compute. reflexivity. Qed.
+
+(* --- C10, CURRENT code (Gen.Tracer.STEP_QUIET_DEQUEUES): the same scenarios are exact ---- *)
+Theorem C10_quiet_in_step_now :
+  exists d k srs,
+    k_api_run 50 [] (mkD (tinit [(1, 100)]) 1 100) (kinit [(1, 100)] [] [], [CSend 1 SIGALRM]) [OStepi; OCont]
+      = Ok (d, (k, []), srs)
+    /\ srs = [None; Some (SRExit 0)] /\ sig_reports srs = []
+    /\ k_sent k = [(1, SIGALRM)] /\ k_deliv k = [(1, SIGALRM)] /\ t_queue (d_tr d) = []
+    /\ spec_delivery (k_sent k) (k_deliv k) = true /\ spec_reported (k_sent k) (sig_reports srs) = true.
+Proof.
+  destruct (k_api_run 50 [] (mkD (tinit [(1, 100)]) 1 100) (kinit [(1, 100)] [] [], [CSend 1 SIGALRM]) [OStepi; OCont])
+    as [[[d [k sch]] srs]| | |] eqn:E; try (vm_compute in E; discriminate).
+  exists d, k, srs. vm_compute in E. inv E. vm_compute. repeat split; reflexivity.
+Qed.
+
+Theorem C10_quiet_burst_now :
+  run_summary (k_api_run 50 [] (mkD (tinit [(1, 100)]) 1 100)
+     (kinit [(1, 100)] [] [], [CSend 1 SIGALRM; CRun 1; CSend 1 SIGALRM]) [OStepi; OStepi; OCont])
+  = Some ([None; None; Some (SRExit 0)],
+          [(1, SIGALRM); (1, SIGALRM)], [(1, SIGALRM); (1, SIGALRM)], [], [(1, 100); (1, 101)]).
 Proof. vm_compute. reflexivity. Qed.
 
 (* --- C10: a non-quiet signal reported by a step is held back by further steps ----------- *)
@@ -1070,9 +1100,9 @@ Proof.
   intros k x0 d tf ok k' H x Hr. unfold kresume in H.
   destruct (kget k x0) as [th|] eqn:E; [|inv H; auto].
   destruct (kst_stopped_reported th); [|inv H; auto].
-  inv H. rewrite krunning_logs in Hr.
-  match type of Hr with match alist_get N.eqb (k_threads (kset k x0 ?v)) x with _ => _ end = true =>
-    change (krunning (kset k x0 v) x = true) in Hr end.
+  inv H.
+  match type of Hr with context [kset_l (k_threads k) x0 ?v] =>
+    assert (Hr' : krunning (kset k x0 v) x = true) by exact Hr; clear Hr; rename Hr' into Hr end.
   apply krunning_kset in Hr. cbn [k_st] in Hr. destruct Hr as [(-> & Hr & _)|(_ & Hr)]; auto.
   right. repeat split; auto. intros (th' & Hg & Hs). cbn [fst] in Hg. rewrite E in Hg. inv Hg.
   rewrite Hs in Hr. discriminate.
@@ -1118,7 +1148,7 @@ Theorem all_stop_resume : forall f bps t w t' w' sr, ktinv t w ->
   ktinv t' w' /\ (real_stop (Some sr) = true -> allstopped t' /\ all_stopped_k (fst w')).
 Proof.
   intros f bps t w t' w' sr TI H.
-  destruct (resume_all_stop kworld kw_wait kw_req kw_pc krun kexit kw_wait_law kw_req_law kw_intr_law
+  destruct (resume_all_stop STEP_QUIET_DEQUEUES kworld kw_wait kw_req kw_pc krun kexit kw_wait_law kw_req_law kw_intr_law
               _ _ _ _ _ _ _ TI H) as (T' & A).
   split; [exact T'|]. intros Hs. destruct (A Hs) as (A1 & A2). split; [exact A1|].
   intros x. specialize (A2 x). unfold krun in A2. destruct (krunning (fst w') x); [exfalso; auto | reflexivity].
@@ -1129,7 +1159,7 @@ Theorem all_stop_single_step : forall f bps t w pid t' w' r, ktinv t w -> is_sto
   ktinv t' w' /\ (allstopped t -> allstopped t' /\ all_stopped_k (fst w')).
 Proof.
   intros f bps t w pid t' w' r TI Hs H.
-  destruct (sstep_keeps kworld kw_wait kw_req kw_pc krun kexit kw_wait_law kw_req_law kw_intr_law
+  destruct (sstep_keeps STEP_QUIET_DEQUEUES kworld kw_wait kw_req kw_pc krun kexit kw_wait_law kw_req_law kw_intr_law
               _ _ _ _ _ _ _ _ TI Hs H) as (T' & A).
   split; [exact T'|]. intros Ha. destruct (A Ha) as (A1 & A2). split; [exact A1|].
   intros x. specialize (A2 x). unfold krun in A2. destruct (krunning (fst w') x); [exfalso; auto | reflexivity].
@@ -1150,20 +1180,20 @@ Theorem C09_all_stop_runs : forall n f bps t w t' w' srs, ktinv t w ->
   k_resume_run f bps t w n = Ok (t', w', srs) ->
   ktinv t' w' /\ (forall sr, last srs SRStart = sr -> real_stop (Some sr) = true -> all_stopped_k (fst w')).
 Proof.
-  induction n as [|n IH]; intros f bps t w t' w' srs TI H; cbn [k_resume_run resume_run] in H.
+  unfold k_resume_run.
+  induction n as [|n IH]; intros f bps t w t' w' srs TI H; cbn [resume_run] in H.
   - inv H. split; auto. intros sr <- Hs. discriminate.
-  - unfold k_resume_run in IH. fold (k_resume f bps t w) in H.
-    destruct (k_resume f bps t w) as [[[t1 w1] sr1]| | |] eqn:E1; cbn [bind] in H; try discriminate.
+  - destruct (resume STEP_QUIET_DEQUEUES kworld kw_wait kw_req kw_pc f bps t w) as [[[t1 w1] sr1]| | |] eqn:E1; cbn [bind] in H; try discriminate.
     destruct (all_stop_resume _ _ _ _ _ _ _ TI E1) as (T1 & A1).
-    destruct (resume_run kworld kw_wait kw_req kw_pc f bps t1 w1 n) as [[[t2 w2] srs2]| | |] eqn:E2; cbn [bind] in H; try discriminate.
+    destruct (resume_run STEP_QUIET_DEQUEUES kworld kw_wait kw_req kw_pc f bps t1 w1 n) as [[[t2 w2] srs2]| | |] eqn:E2; cbn [bind] in H; try discriminate.
     inv H. destruct (IH _ _ _ _ _ _ _ T1 E2) as (T2 & A2). split; [exact T2|].
-    intros sr Hl Hs. destruct n as [|n'].
-    + cbn [resume_run] in E2. inv E2. cbn [last] in Hs. apply A1; auto.
-    + destruct srs2 as [|s2 rest2].
+    intros sr Hl Hs. destruct srs2 as [|s2 rest2].
+    + cbn [last] in Hl. subst sr. destruct n as [|n'].
+      * cbn [resume_run] in E2. inv E2. apply A1; auto.
       * cbn [resume_run] in E2.
-        destruct (resume kworld kw_wait kw_req kw_pc f bps t1 w1) as [[[? ?] ?]| | |]; cbn [bind] in E2; try discriminate.
-        destruct (resume_run kworld kw_wait kw_req kw_pc f bps t0 k n') as [[[? ?] ?]| | |]; cbn [bind] in E2; discriminate.
-      * apply (A2 sr); auto.
+        destruct (resume STEP_QUIET_DEQUEUES kworld kw_wait kw_req kw_pc f bps t1 w1) as [[[? ?] ?]| | |]; cbn [bind] in E2; try discriminate.
+        destruct (resume_run STEP_QUIET_DEQUEUES kworld kw_wait kw_req kw_pc f bps t0 k n') as [[[? ?] ?]| | |]; cbn [bind] in E2; discriminate.
+    + apply (A2 sr); auto.
 Qed.
 
 (* ===================================================================================== *)
@@ -1189,7 +1219,7 @@ Proof.
       * destruct (k_st th); cbn [andb]; try (rewrite app_nil_r; reflexivity);
         destruct (negb (d =? 0)); try rewrite app_nil_r; reflexivity.
       * intros x Hx.
-        match goal with |- kget (mkKer (k_threads (kset k y ?v)) _ _ _ _ _ _) x = _ => change (kget (kset k y v) x = kget k x) end.
+        match goal with |- context [kset_l (k_threads k) y ?v] => change (kget (kset k y v) x = kget k x) end.
         rewrite kget_kset. destruct (y =? x) eqn:Eyx; auto. apply N.eqb_eq in Eyx. congruence.
     + inv H. cbn [andb]. rewrite app_nil_r. auto.
   - inv H. rewrite app_nil_r. auto.
@@ -1212,7 +1242,7 @@ Proof.
       rewrite (Hxy eq_refl). fold (tget r x). rewrite (tget_notin _ _ Hnin). reflexivity. }
     destruct (mem y ex) eqn:Em.
     + destruct (cont_list kworld kw_req r (k, sch) (Some (x, sg)) ex) as [r' w''] eqn:Hc. inv H.
-      apply (SKIP _ _ Hc). intros ->. rewrite Em. apply andb_false_r.
+      apply (SKIP _ _ eq_refl). intros ->. rewrite Em. apply andb_false_r.
     + destruct st as [sty|].
       * unfold kw_req at 1 in H. cbn [fst snd kreq] in H.
         destruct (kresume k y (if x =? y then sg else 0) false) as [ok k1] eqn:Er.
@@ -1227,7 +1257,7 @@ Proof.
            { unfold sigstop_ready. rewrite F1; auto. apply N.eqb_neq in E. exact E. }
            rewrite S1. reflexivity.
       * destruct (cont_list kworld kw_req r (k, sch) (Some (x, sg)) ex) as [r' w''] eqn:Hc. inv H.
-        apply (SKIP _ _ Hc). intros _. reflexivity.
+        apply (SKIP _ _ eq_refl). intros _. reflexivity.
 Qed.
 
 (* C10, one queue entry: when Tracer::resume pops (x, sg), its continue phase hands exactly that
@@ -1266,3 +1296,48 @@ Example inject_ok_nontrivial :
   inject_ok (mkT 1 [(1, TStopped (StSignal 10)); (2, TStopped (StSignal 12))] [(1, 10); (2, 12)] false)
             (mkKer [(1, mkK (KSig 10) true false [] 5 false); (2, mkK (KSig 12) true true [] 7 false)] [] [] [] [] [] []) = true.
 Proof. reflexivity. Qed.
+
+(* ===================================================================================== *)
+(* F. C10, current code: a quiet signal that arrives inside single_step                    *)
+(* ===================================================================================== *)
+Lemma pair_eqb_refl : forall p, pair_eqb p p = true.
+Proof. intros [a b]. unfold pair_eqb; cbn [fst snd]. rewrite !N.eqb_refl. reflexivity. Qed.
+
+(* taking back the entry that has just been pushed restores the queue *)
+Lemma remove_last_pushed : forall q p, remove_last_pair (q ++ [p]) p = q.
+Proof.
+  intros q p. unfold remove_last_pair. rewrite rev_unit. cbn [remove_first_pair].
+  rewrite pair_eqb_refl. apply rev_involutive.
+Qed.
+
+Lemma quiet_facts : forall sg, quiet sg = true -> (sg =? SIGTRAP) = false /\ transparent sg = false /\ (sg =? 0) = false.
+Proof.
+  intros sg H. unfold quiet, mem, QUIET_SIGNALS in H. cbn [existsb] in H.
+  repeat (apply orb_true_iff in H; destruct H as [H|H]); try discriminate;
+  apply N.eqb_eq in H; subst sg; repeat split; reflexivity.
+Qed.
+
+(* For EVERY tracer state, breakpoint table, kernel state and schedule: when the wait inside
+   single_step returns a quiet signal stop of the stepped thread, (1) apply_new_status queues it
+   and reports SignalStop without any group stop, (2) the dequeue of the repaired single_step
+   leaves the queue exactly as it was before the step, (3) the PTRACE_SINGLESTEP that follows
+   hands the signal to the thread exactly once. *)
+Theorem quiet_in_step_once : forall f bps t k sch pid sg code pc st,
+  quiet sg = true -> tget (t_threads t) pid = Some st -> sigstop_ready k pid = true ->
+  exists t2,
+    k_ans_gen true (S f) bps t (k, sch) (WStopped pid sg code pc) = Ok (t2, (k, sch), Some (SRSignal pid sg))
+    /\ t_queue t2 = t_queue t ++ [(pid, sg)]
+    /\ t_queue (with_queue t2 (remove_last_pair (t_queue t2) (pid, sg))) = t_queue t
+    /\ forall ok w3, kw_req (k, sch) (PStep pid sg) = (ok, w3) -> k_deliv (fst w3) = k_deliv k ++ [(pid, sg)].
+Proof.
+  intros f bps t k sch pid sg code pc st Hq Ht Hr.
+  destruct (quiet_facts _ Hq) as (Q1 & Q2 & Q3).
+  exists (t_set (with_queue t (t_queue t ++ [(pid, sg)])) pid (TStopped (StSignal sg))).
+  split; [|split; [reflexivity|split]].
+  - unfold k_ans_gen. cbn [ModelTracer.ans]. rewrite Q1, Q2. unfold ensure_stop. cbn [t_threads with_queue].
+    rewrite Ht. cbn [bind]. rewrite Hq. cbn [bind]. reflexivity.
+  - cbn [t_queue with_queue t_set with_threads]. apply remove_last_pushed.
+  - intros ok w3 H. unfold kw_req in H. cbn [fst snd kreq] in H.
+    destruct (kresume k pid sg true) as [ok' k'] eqn:E. inv H. cbn [fst].
+    destruct (kresume_deliv _ _ _ _ _ _ E) as (D & _). rewrite D, Hr, Q3. reflexivity.
+Qed.
